@@ -46,7 +46,7 @@ MsgU == { [len |-> 5,  h |-> H0, dec |-> FALSE],
 \* non-vacuity, evaluated once at start-up
 ASSUME \A p \in Policies : \E x \in Headers : Policy(x) = p
 ASSUME { ClassOf(m) : m \in MsgU } = {"handled", "dropped", "reported"}
-ASSUME \E S \in SUBSET PatU, n \in NameU : Cardinality(RouteSet(S, n, TypeDS)) = 2
+ASSUME Cardinality(DSBelowReadings) = 2 => \E S \in SUBSET PatU, n \in NameU : Cardinality(RouteSet(S, n, TypeDS)) = 2
 ASSUME \E S \in SUBSET PatU, n \in NameU : RouteSet(S, n, 1) = {Refused}
 
 Init ==
@@ -114,7 +114,7 @@ RouteInv ==
           LET top == LongestOf(M)  A == ProperAnc(PS, top) IN
           /\ (A = {} => pats = {top})
           /\ (A # {} /\ Len(top) = Len(qn) => pats = {LongestOf(A)} /\ \A p \in A : Len(p) <= Len(LongestOf(A)))
-          /\ (A # {} /\ Len(top) < Len(qn) => pats = {top, LongestOf(A)}))
+          /\ (A # {} /\ Len(top) < Len(qn) => pats # {} /\ pats \subseteq {top, LongestOf(A)}))
     /\ RouteSet(PS, LowerName(qn), qt) = R                             \* case of the question name is irrelevant
     /\ PastNearest(PS, qn, qt) \cap pats = {}
 
